@@ -435,6 +435,7 @@ type c14Case struct {
 	ZeroResp int               `json:"zero_resp,omitempty"`
 	ZeroProp *qname            `json:"zero_prop,omitempty"`
 	Deleted  string            `json:"deleted,omitempty"`
+	Deleted2 string            `json:"deleted_second,omitempty"`
 	WantCond string            `json:"want_condition,omitempty"` // local name of the DAV:error condition the error must carry
 	WantCode int               `json:"want_code,omitempty"`      // HTTP status the error of the failed resource must carry
 	Split    int               `json:"split_headers,omitempty"`
@@ -542,6 +543,20 @@ func c14Judge(m c14Method, c c14Case) (clause, detail string) {
 			}
 			if !found {
 				return "deletion-not-reported", fmt.Sprint(sr.Deleted)
+			}
+			if c.Deleted2 != "" {
+				found2 := false
+				for _, d := range sr.Deleted {
+					if d == c.Deleted2 {
+						found2 = true
+					}
+					if d == "" {
+						return "deletion-of-nothing-reported", fmt.Sprintf("%q", sr.Deleted)
+					}
+				}
+				if !found2 {
+					return "deletion-not-reported", fmt.Sprintf("%q lacks %q", sr.Deleted, c.Deleted2)
+				}
 			}
 		}
 		if c.ZeroProp != nil && m.Zero != nil {
@@ -763,6 +778,12 @@ func c14PlacementCases(m c14Method, full bool) []c14Case {
 					c.WantErr, c.Deleted = false, r[ri].Href
 				}
 				out = append(out, c)
+				if m.Sync && st == 404 {
+					// two deleted members reported in one status-form response (href+ status)
+					r2 := clone(r)
+					r2[ri].ExtraHref = true
+					out = append(out, c14Case{Method: m.Name, Kind: "placement", Resps: r2, Deleted: r[ri].Href, Deleted2: r[ri].Href + "-second"})
+				}
 			}
 			if m.Sync && strings.HasPrefix("/u/c/k1/", base[ri].Href) {
 				// the synchronized collection's own response: SyncCollection has no place for its
